@@ -83,14 +83,14 @@ func (mgr *GCMgr) UpdateCollision(bkt *Bucket, ki *KeyInfo, oldPos, newPos Posit
 }
 
 func (mgr *GCMgr) UpdateHtreePos(bkt *Bucket, ki *KeyInfo, oldPos, newPos Position) {
-	// TODO: should be a api of htree to be atomic
-	meta, _, ok := bkt.htree.get(ki)
-	if !ok {
-		logger.Warnf("old key removed when updating pos bucket %d %s %#v %#v",
-			bkt.ID, ki.StringKey, meta, oldPos)
-		return
+	// the item moves only if it still points at the record that was relocated: a client write that got in
+	// since GC looked at the item keeps its own position
+	moved, found := bkt.htree.movePos(ki, oldPos, newPos)
+	if !found {
+		logger.Warnf("old key removed when updating pos bucket %d %s %#v", bkt.ID, ki.StringKey, oldPos)
+	} else if !moved {
+		logger.Infof("key rewritten during gc, bucket %d %s %#v", bkt.ID, ki.StringKey, oldPos)
 	}
-	bkt.htree.set(ki, meta, newPos)
 }
 
 func (mgr *GCMgr) BeforeBucket(bkt *Bucket, startChunkID, endChunkID int, merge bool) {
